@@ -4,7 +4,7 @@ cd /verif
 TIER=${1:-quick}
 git -C /repo status --porcelain --untracked-files=no | grep . && { echo "/repo has uncommitted changes"; exit 2; }
 rc=0
-for p in C01 C03 C04 C05 C09 C10 C11 C16 C17 C18 C19; do
+for p in C01 C03 C04 C05 C09 C10 C11 C12 C16 C17 C18 C19; do
   ./check $p --tier $TIER; r=$?; echo "  -> $p exit $r"; [ $r -ne 0 ] && rc=1
 done
 python3-vt tools_validate.py || rc=1
